@@ -1,7 +1,7 @@
 /-
 Model of the eStargz builder's entry ordering (C14).
 
-  estargz/build.go   : cleanEntryName users, tarFile{add,remove,get,dump}, importTar, moveRec, sortEntries
+  estargz/build.go   : cleanEntryName users, tarFile{add,remove,get,dump}, importTar, moveRec/moveRecVisiting, sortEntries
   estargz/estargz.go : cleanEntryName, the stream-boundary rule of the chunk loop in appendTar
                        (`needsOpenGz(ent) || w.cw.n-prevOffset >= MinChunkSize`), closeWithCombine's offset shift
 
@@ -77,7 +77,10 @@ def importTar (es : List Entry) : List Entry := es.foldl importStep []
 /-! ## `moveRec` -/
 
 inductive Status where
-  | ok | notFound | diverge
+  | ok          -- nil
+  | notFound    -- an error wrapping errNotFound
+  | cycle       -- "hardlinks make a cycle" (not errNotFound)
+  | diverge     -- the model ran out of fuel (never happens for the current code: `moveRec_terminates`)
 deriving DecidableEq, Repr, Inhabited
 
 /-- `sorted` (its stream) and `picked`. -/
@@ -90,31 +93,65 @@ deriving DecidableEq, Repr, Inhabited
 def MState.add (st : MState) (k : Name) (e : Entry) : MState :=
   { out := st.out ++ [e], picked := k :: st.picked }
 
-/-- `moveRec(name, in, out, picked)` on the cleaned `name`.  The Go recursion is not structural
-(it follows hardlink names), so it takes fuel; running out of fuel is `diverge`
-(`moveRec_terminates`: `inp.length + 1` is enough when the parent/hardlink graph has no cycle).
+/-- `moveRecVisiting(name, in, out, picked, visiting)` on the cleaned `name`.  `vis` is the set of
+names on the current recursion path (`visiting[name] = …; defer delete(visiting, name)` = pass
+`k :: vis` down and forget it on return).  The recursion follows hardlink names, so it is not
+structural and takes fuel; `moveRec_terminates` shows that `inp.length + 1` is always enough
+(every name on the path is a different entry of the tar), i.e. `diverge` is never returned.
 The state is returned on every path because the Go code mutates `out`/`picked` in place and
 `sortEntries` keeps going after a not-found error when that is allowed. -/
-def moveRec (inp : List Entry) : Nat → Name → MState → MState × Status
-  | 0, _, st => (st, .diverge)
-  | fuel + 1, k, st =>
+def moveRecVisiting (inp : List Entry) : Nat → Name → MState → List Name → MState × Status
+  | 0, _, st, _ => (st, .diverge)
+  | fuel + 1, k, st, vis =>
     if k = [] then                                     -- root directory: stop recursion
       match get inp k with
       | some e => if st.picked.contains k then (st, .ok) else (st.add k e, .ok)
       | none => (st, .ok)
     else if (get inp k).isNone && (get st.out k).isNone && !st.picked.contains k then
       (st, .notFound)
+    else if vis.contains k then                        -- if _, ok := visiting[name]; ok { return cycle error }
+      (st, .cycle)
     else
-      -- parent, _ := path.Split(strings.TrimSuffix(name, "/")); if err := moveRec(parent, …); err != nil { return err }
-      let r1 := moveRec inp fuel k.dropLast st
+      -- parent, _ := path.Split(strings.TrimSuffix(name, "/")); if err := moveRecVisiting(parent, …); err != nil { return err }
+      let r1 := moveRecVisiting inp fuel k.dropLast st (k :: vis)
       if r1.2 ≠ .ok then r1 else
-      -- if e, ok := in.get(name); ok && e.header.Typeflag == tar.TypeLink { if err := moveRec(e.header.Linkname, …) … }
+      -- if e, ok := in.get(name); ok && e.header.Typeflag == tar.TypeLink { if err := moveRecVisiting(e.header.Linkname, …) … }
       let r2 :=
         match get inp k with
-        | some e => if e.isLink then moveRec inp fuel (cleanEntryName e.linkName) r1.1 else (r1.1, .ok)
+        | some e => if e.isLink then moveRecVisiting inp fuel (cleanEntryName e.linkName) r1.1 (k :: vis) else (r1.1, .ok)
         | none => (r1.1, .ok)
       if r2.2 ≠ .ok then r2 else
       if r2.1.picked.contains k then (r2.1, .ok)       -- if _, done := picked[name]; done { return nil }
+      else
+        match get inp k with
+        | some e => (r2.1.add k e, .ok)
+        | none => (r2.1, .ok)
+
+/-- `moveRec(name, in, out, picked)`: starts with an empty `visiting` set. -/
+def moveRec (inp : List Entry) (fuel : Nat) (k : Name) (st : MState) : MState × Status :=
+  moveRecVisiting inp fuel k st []
+
+/-- `moveRec` as it was BEFORE the repair (no `visiting` set): kept as the documented
+counterexample — on a cycle of hardlinks it exhausts any fuel (`cycle_diverges_witness`; the Go
+code overflowed its stack). -/
+def moveRecOld (inp : List Entry) : Nat → Name → MState → MState × Status
+  | 0, _, st => (st, .diverge)
+  | fuel + 1, k, st =>
+    if k = [] then
+      match get inp k with
+      | some e => if st.picked.contains k then (st, .ok) else (st.add k e, .ok)
+      | none => (st, .ok)
+    else if (get inp k).isNone && (get st.out k).isNone && !st.picked.contains k then
+      (st, .notFound)
+    else
+      let r1 := moveRecOld inp fuel k.dropLast st
+      if r1.2 ≠ .ok then r1 else
+      let r2 :=
+        match get inp k with
+        | some e => if e.isLink then moveRecOld inp fuel (cleanEntryName e.linkName) r1.1 else (r1.1, .ok)
+        | none => (r1.1, .ok)
+      if r2.2 ≠ .ok then r2 else
+      if r2.1.picked.contains k then (r2.1, .ok)
       else
         match get inp k with
         | some e => (r2.1.add k e, .ok)
@@ -139,8 +176,9 @@ def sortLoop (inp : List Entry) (fuel : Nat) (allow : Bool) :
   | l :: ls, st, missed =>
     match moveRec inp fuel (cleanEntryName l) st with
     | (st', .ok) => sortLoop inp fuel allow ls st' missed
-    | (st', .notFound) =>
+    | (st', .notFound) =>                              -- errors.Is(err, errNotFound) && missedPrioritized != nil
       if allow then sortLoop inp fuel allow ls st' (missed ++ [l]) else .err
+    | (_, .cycle) => .err                              -- any other error aborts, allowed or not
     | (_, .diverge) => .diverge
 
 inductive Outcome where
